@@ -35,7 +35,7 @@ package roaring
 //@   requires wfArrN(c)
 //@   ensures result0 != nil
 //@   ensures result1 <==> !old(memArr(c.$arr, v))
-//@   ensures !result1 ==> result0 == c && result0.n == old(c.n) && c.$arr == old(c.$arr) && unchanged(c.$arr)
+//@   ensures !result1 ==> result0 == c && result0.n == old(c.n) && c.$arr == old(c.$arr) && unchanged(c.$arr) && c.typeID == 1
 //@   ensures result1 ==> result0.n == old(c.n) + 1
 //@   ensures old(c.n) < 4096 ==> wfArrN(result0)
 //@   ensures old(c.n) >= 4096 && result1 ==> wfBm(result0)
@@ -50,7 +50,7 @@ package roaring
 //@ contract (*Container).arrayRemove props C01,C02,C03
 //@   requires wfArrN(c)
 //@   ensures result1 <==> old(memArr(c.$arr, v))
-//@   ensures !result1 ==> result0 == c && result0.n == old(c.n) && c.$arr == old(c.$arr) && unchanged(c.$arr)
+//@   ensures !result1 ==> result0 == c && result0.n == old(c.n) && c.$arr == old(c.$arr) && unchanged(c.$arr) && c.typeID == 1
 //@   ensures result1 && old(c.n) == 1 ==> result0 == nil
 //@   ensures result1 && old(c.n) > 1 ==> result0 != nil && wfArrN(result0) && result0.n == old(c.n) - 1
 //@   ensures result0 != nil ==> !memArr(result0.$arr, v)
@@ -77,7 +77,7 @@ package roaring
 //@ contract (*Container).bitmapRemove props C01,C02,C03
 //@   requires wfBm(c) && 1 <= c.n && c.n <= 65536
 //@   ensures result1 <==> old(memBm(c.$bm, v))
-//@   ensures !result1 ==> result0 == c && result0.n == old(c.n) && c.$bm == old(c.$bm) && unchanged(c.$bm)
+//@   ensures !result1 ==> result0 == c && result0.n == old(c.n) && c.$bm == old(c.$bm) && unchanged(c.$bm) && c.typeID == 2
 //@   ensures result1 && old(c.n) == 1 ==> result0 == nil
 //@   ensures result1 && old(c.n) > 1 ==> result0 != nil && result0.n == old(c.n) - 1 && (wfBm(result0) || wfArrN(result0))
 //@   ensures result0 != nil ==> !mem(result0, v)
@@ -90,7 +90,7 @@ package roaring
 //@   requires wfRuns(c) && 0 <= c.n && c.n < 2147483647 && (len(c.$runs) == 0 ==> c.n == 0)
 //@   ensures result0 != nil && isRun(result0)
 //@   ensures result1 <==> !old(memRuns(c.$runs, v))
-//@   ensures !result1 ==> result0 == c && result0.n == old(c.n) && c.$runs == old(c.$runs) && unchanged(c.$runs)
+//@   ensures !result1 ==> result0 == c && result0.n == old(c.n) && c.$runs == old(c.$runs) && unchanged(c.$runs) && c.typeID == 3
 //@   ensures result1 ==> result0.n == old(c.n) + 1
 //@   ensures (old(c.flags) & 2) != 0 && result1 ==> fresh(result0)
 //@   ensures memRuns(result0.$runs, v)
@@ -103,7 +103,7 @@ package roaring
 //@ contract (*Container).runRemove props C01,C02,C03
 //@   requires wfRuns(c) && 1 <= c.n && c.n <= 65536
 //@   ensures result1 <==> old(memRuns(c.$runs, v))
-//@   ensures !result1 ==> result0 == c && result0.n == old(c.n) && c.$runs == old(c.$runs) && unchanged(c.$runs)
+//@   ensures !result1 ==> result0 == c && result0.n == old(c.n) && c.$runs == old(c.$runs) && unchanged(c.$runs) && c.typeID == 3
 //@   ensures result1 && old(c.n) == 1 ==> result0 == nil
 //@   ensures result1 && old(c.n) > 1 ==> result0 != nil && isRun(result0) && result0.n == old(c.n) - 1
 //@   ensures (old(c.flags) & 2) != 0 && result1 && result0 != nil ==> fresh(result0)
@@ -112,3 +112,34 @@ package roaring
 //@   ensures result0 != nil ==> (forall x :: 0 <= x && x < 65536 && memRuns(result0.$runs, x) ==> old(memRuns(c.$runs, x)))
 //@   ensures result0 != nil && result1 ==> (forall i :: 0 <= i && i < old(len(c.$runs)) ==> (old(c.$runs[i]).last < v ==> result0.$runs[i] == old(c.$runs[i])) && (old(c.$runs[i]).start > v ==> ((i < len(result0.$runs) && result0.$runs[i] == old(c.$runs[i])) || (i >= 1 && result0.$runs[i-1] == old(c.$runs[i])) || (i + 1 < len(result0.$runs) && result0.$runs[i+1] == old(c.$runs[i])))))
 //@   ensures result0 != nil ==> (forall x :: 0 <= x && x < 65536 && x != v && old(memRuns(c.$runs, x)) ==> memRuns(result0.$runs, x))
+
+// wfMut: representation well-formed and n coherent where the kernels rely on it.
+//@ spec wfMut(c *Container) = (wfArrN(c) || (wfBm(c) && 1 <= c.n && c.n <= 65536) || (wfRuns(c) && 0 <= c.n && c.n <= 65536 && (len(c.$runs) == 0 ==> c.n == 0)))
+
+// add / remove: the dispatchers inherit the kernel contracts: exactly v changes,
+// the `changed` result is exact and n moves by exactly one when it is true.
+//@ contract (*Container).add props C01,C02,C03
+//@   requires c == nil || (wfMut(c) && c.n < 65536)
+//@   ensures newC != nil && mem(newC, v)
+//@   ensures added <==> !old(mem(c, v))
+//@   ensures c != nil ==> newC.n == old(c.n) + (added ? 1 : 0)
+//@   ensures c == nil ==> newC.n == 1
+//@   ensures !added ==> newC == c
+//@   ensures forall x :: 0 <= x && x < 65536 && x != v ==> (mem(newC, x) <==> old(mem(c, x)))
+//@   ensures c != nil && (old(c.flags) & 2) != 0 && added ==> fresh(newC)
+
+//@ contract (*Container).remove props C01,C02,C03
+// (n == 1 means a singleton: the part of n-coherence, n == |set|, that returning
+// nil for the last value relies on; it is a precondition here, established by
+// the +1/-1 postconditions of the kernels along any history that starts coherent.)
+//@   requires c == nil || (wfMut(c) && c.n >= 1)
+//@   requires isBm(c) && c.n == 1 ==> (forall x, y :: 0 <= x && x < 65536 && 0 <= y && y < 65536 && memBm(c.$bm, x) && memBm(c.$bm, y) ==> x == y)
+//@   requires isRun(c) && c.n == 1 ==> len(c.$runs) == 1 && c.$runs[0].start == c.$runs[0].last
+//@   ensures removed <==> old(mem(c, v))
+//@   ensures !removed ==> newC == c
+//@   ensures removed && old(c.n) == 1 ==> newC == nil
+//@   ensures removed && old(c.n) > 1 ==> newC != nil && newC.n == old(c.n) - 1
+//@   ensures !mem(newC, v)
+//@   ensures forall x :: 0 <= x && x < 65536 && mem(newC, x) ==> old(mem(c, x))
+//@   ensures forall x :: 0 <= x && x < 65536 && x != v && old(mem(c, x)) ==> mem(newC, x)
+//@   ensures c != nil && (old(c.flags) & 2) != 0 && removed && newC != nil ==> fresh(newC)
